@@ -100,8 +100,7 @@ def run(ctx):
         cases = mcases + cases
     casef = os.path.join(wdir, "cases.ndjson")
     obsf = os.path.join(wdir, "obs.ndjson")
-    vlib.write_ndjson(casef, cases)
-    vlib.run_harness(vh, ["npm", tablesf, casef, obsf], timeout=3000)
+    vlib.run_harness_split(vh, "npm", tablesf, cases, casef, obsf, nparts=1 if ctx.replay else 6)
     states, gen, rej, lines = vlib.tlc_chunks("NpmTrace", os.path.join(vlib.SPEC, "NpmTrace.cfg"), wdir, obsf, 800 if ctx.tier == "quick" else 2500,
                                               "NpmTrace", parallel=4, workers=4)
     states += r0.distinct
@@ -120,6 +119,9 @@ def run(ctx):
             nontrivial += 1
         if any(t["parent"] > 1 for t in o["tree"]):
             nested += 1
+    abandoned = sum(1 for ln in lines if "did not return within" in ln)
+    if abandoned:
+        print("NOTE: %d resolutions did not return within 60 s and were abandoned (a matter for C04, totality; not judged here)" % abandoned)
     model_diff = []
     for idx, x in rej:
         o = json.loads(lines[idx - 1])
@@ -161,7 +163,7 @@ def run(ctx):
            "rule": "every universe of the NpmResolveMC family (TLC-enumerated, with the algorithm model's graph and tree) + seeded universes over the pools of NpmModel.tla; two roots per universe; non-trivial = resolved graph with >= 4 nodes; "
                    "%d resolutions produced a nested install (a package below depth 1), %d ended in a resolver error (not judged)" % (nested, errs),
            "samples": [{"root": s["root"], "universe_packages": len(s["universe"]), "graph": s["graph"], "tree": s["tree"][:6]}],
-           "known_findings_hit": {k: v[0] for k, v in verdict.hits.items()}, "exhaustive": False}
+           "resolutions_abandoned_after_60s": abandoned, "known_findings_hit": {k: v[0] for k, v in verdict.hits.items()}, "exhaustive": False}
     vlib.write_evidence(pid, ctx.tier, ctx.seed, "model_checking", cov, time.time() - t0, violations=len(verdict.violations),
                         assumptions=["TLC 1.8.0", "requirement satisfaction from Ranges.tla (npm model cross-checked against node-semver)",
                                      "install tree obtained through the verif-tagged hook npm.VerifTree", "universes without bundled (derived) packages"])
